@@ -15,9 +15,9 @@
 (*  [ver |-> 3, tmap |-> ..., chunks |-> Seq(Seq(RecId)), blocks |-> Seq([tag, ...payload])]        *)
 (*  block payloads: "codes": txt (string)        "kexts": bins (Seq)     "dyld": bins (Seq), extra  *)
 (*                  "procs": val                 "images": val                                      *)
-(*                  "logs": evs (Seq([cm, p, tid, pid]))    "strings": idx (Seq of texts; id = position) *)
+(*                  "logs": evs (Seq([cm, p, tid, pid]))    "strings": idx (Seq of texts; id = position - 1) *)
 (***************************************************************************************************)
-EXTENDS Naturals, Sequences, FiniteSets, TLC
+EXTENDS Naturals, Integers, Sequences, FiniteSets, TLC
 
 EmptyFn == <<>>
 Put(f, k, v) == [x \in DOMAIN f \cup {k} |-> IF x = k THEN v ELSE f[x]]
@@ -61,8 +61,8 @@ ApplyBlock(acc, b) ==
 RECURSIVE ApplyBlocks(_, _, _)
 ApplyBlocks(acc, blocks, i) == IF i > Len(blocks) THEN acc ELSE ApplyBlocks(ApplyBlock(acc, blocks[i]), blocks, i + 1)
 
-Str(idx, id) == IF id >= 1 /\ id <= Len(idx) THEN idx[id] ELSE ""
-LogItem(idx, l) == [k |-> "log", msg |-> Str(idx, l.cm), proc |-> IF l.p = 0 THEN "" ELSE Str(idx, l.p),
+Str(idx, id) == IF id >= 0 /\ id < Len(idx) THEN idx[id + 1] ELSE ""     \* string numbers start at 0
+LogItem(idx, l) == [k |-> "log", msg |-> Str(idx, l.cm), proc |-> IF l.p = -1 THEN "" ELSE Str(idx, l.p),      \* -1: the record has no process key
                     tid |-> l.tid, pid |-> l.pid]
 
 \* a log record naming a process and a thread extends the tables (kd_buf_parser.py:206-209)
